@@ -168,13 +168,17 @@ func trunc(s string, n int) string {
 // StepLimit is the logical instruction budget per run-mode execution (H1 hook).
 const StepLimit = 3_000_000
 
+// programStepLimit is the budget runProgram applies (the child runner lowers it in
+// the quick tier).
+var programStepLimit int64 = StepLimit
+
 // runProgram executes src the way `ego run file` does (egorun), with language
 // extensions on, a step budget, and positions masked. budget reports that the step
 // budget stopped the run (then the behaviour is not comparable: inconclusive).
 func runProgram(src string) (b Behaviour, budget bool) {
 	settings.SetDefault(defs.RuntimeDeepScopeSetting, "false")
 
-	bytecode.VerifStepLimit.Store(atomic.LoadInt64(&bytecode.InstructionsExecuted) + StepLimit)
+	bytecode.VerifStepLimit.Store(atomic.LoadInt64(&bytecode.InstructionsExecuted) + programStepLimit)
 	before := bytecode.VerifBudgetHits.Load()
 
 	r := egorun.Run(src, egorun.Config{Types: "dynamic", Opt: 0, SymAlloc: 32, Extensions: true, Sandbox: 1})
